@@ -107,6 +107,7 @@ def run(ctx):
                           timeout=7200))
     ctx.expect_ok(run_tlc('Format_MC', CFG % (1, TPL, 'cols'), ctx.workdir, name='format_cols', timeout=600))
     obs, info = [], {}
+    nlog = [0]
     ncompose = 0
     for i in range(60 if ctx.quick else 1200):
         w, dump = gen_dump(rnd)
@@ -146,6 +147,29 @@ def run(ctx):
                 ctx.violation('C14/process-column/formatted_kevents', 'thread %d (map %s) shown as %r'
                               % (t, tmap.get(t), ln), {'kind': 'pipeline', 'file_hex': dump.blob.hex(),
                                                        'stream': describe(w, dump.stream)})
+        # log listing: colour never changes the text; a log naming a process and a thread shows that process
+        if i % 4 == 0:
+            from .pipeline import Dump
+            logs = [(rnd.choice([1, 2, 3, 7]), rnd.choice([11, 12, 21]), rnd.choice(['alpha', 'logproc', ''])) for _ in range(rnd.randrange(1, 6))]
+            d3 = Dump(w, dump.stream, dump.tmap, logs, nchunks=rnd.choice([1, 2]))
+            plain = listing('formatted_logs', d3.blob, (True,) * 6, False)
+            col = listing('formatted_logs', d3.blob, (True,) * 6, True)
+            nlog[0] += len(plain)
+            if len(plain) != len(logs) or [strip_ansi(x).rstrip() for x in col] != [x.rstrip() for x in plain]:
+                ctx.violation('C14/colour-changes-text/formatted_logs', 'log listing differs with colour: %r vs %r' % (col[:2], plain[:2]),
+                              {'kind': 'pipeline', 'file_hex': d3.blob.hex(), 'stream': describe(w, dump.stream)})
+            # tables as the dump declares them at that point: thread map, then every earlier-or-same log with a process
+            seen_tp, seen_pn = {t: p_ for t, p_, _ in dump.tmap}, {p_: n_ for _, p_, n_ in dump.tmap}
+            for (lt, lp, lname), line in zip(logs, plain):
+                if lname and lt:
+                    seen_tp[lt] = lp
+                    seen_pn[lp] = lname
+                if lname:
+                    want = ('%s(%d)' % (seen_pn.get(seen_tp[lt], ''), seen_tp[lt])) if lt in seen_tp else None
+                    if want is not None and want not in line:
+                        ctx.violation('C14/process-column/formatted_logs', 'log of thread %d process %r(%d) is listed as %r'
+                                      % (lt, lname, lp, line), {'kind': 'pipeline', 'file_hex': d3.blob.hex(),
+                                                                'stream': describe(w, dump.stream)})
         oid = 'f%d' % i
         obs.append({'id': oid, 'dump': dump.abstract(), 'reqs': [r]})
         info[oid] = (w, dump, r)
@@ -158,7 +182,7 @@ def run(ctx):
                       {'kind': 'pipeline', 'file_hex': dump.blob.hex(), 'stream': describe(w, dump.stream)})
     ctx.evaluations = ncompose + nv
     ctx.sample({'lines': listing('formatted_traces', info['f0'][1].blob, (True, True, True, True, True, True), False)[:3]})
-    ctx.extra['code'] = {'dumps': len(obs), 'configurations_rendered': ncompose}
+    ctx.extra['code'] = {'dumps': len(obs), 'configurations_rendered': ncompose, 'log_lines_checked': nlog[0]}
     ctx.assumptions += ['trailing whitespace of a line is not compared (pygments strips it)',
                         'plain event listing: thread map only, an in-stream-declared thread may be unknown or its '
                         'declared process']
